@@ -21,7 +21,8 @@ LAYOUTS_X = {
                "d/y.bin": b"Y", "d/z.bin": b"Z"}, []),
 }
 # (names that are special to glob / regular expressions / format strings must be as harmless as any other)
-ANCESTORS = ["plain", "ascmhl", "x.tmp", ".DS_Store", "with space", "Shoot [Day 1]", "what? *(copy) {0} %s", "e\u0301 \u00fc"]
+DEEP = "/".join("level %02d of a deep project structure" % i for i in range(1, 9))   # > 255 bytes of path, every name short
+ANCESTORS = ["plain", "ascmhl", "x.tmp", ".DS_Store", "with space", "Shoot [Day 1]", "what? *(copy) {0} %s", "e\u0301 \u00fc", DEEP]
 INVOCATIONS = ["absolute", "trailing-slash", "relative-from-parent", "dot-from-inside", "through-symlinked-parent",
                "through-symlinked-parent, -sf relative to the working directory", "link-dotdot"]
 
@@ -107,7 +108,7 @@ def eval_case(ctx, case):
     layout = case["layout_def"]
     v = []
     anc = case["ancestor"]
-    sig = {"ancestor": "plain" if anc == "plain" else ("space" if anc == "with space" else "special-characters" if anc not in
+    sig = {"ancestor": "plain" if anc == "plain" else ("space" if anc == "with space" else "deep" if anc == DEEP else "special-characters" if anc not in
                        ("ascmhl", "x.tmp", ".DS_Store") else "matches-ignore-pattern"),
            "invocation": case["invocation"], "permuted": bool(case.get("order")), "nested": bool(case["layout_def"][1])}
     got, exits, post = seal(ctx, layout, case["ancestor"], case["invocation"], case.get("order"))
